@@ -23,12 +23,17 @@ def main():
     from labella.timeline import TimelineSVG, TimelineTex
 
     tls = {}
+    datas = {}
+    share = {int(k): v for k, v in (h.get("share_data") or {}).items()}
     out = {"exports": [], "interference": [], "events": {}}
     for i, op in enumerate(h["ops"]):
         k = op[1]
         try:
             if op[0] == "new":
                 data, options, _ = TL.build(h["specs"][k])
+                if k in share and share[k] in datas:
+                    data = datas[share[k]]  # the very dict objects another timeline was given (equal values by construction)
+                datas[k] = data
                 cls = TimelineSVG if h["backends"][k] == "svg" else TimelineTex
                 tls[k] = cls(data, options=options) if options is not None else cls(data)
             else:
